@@ -4,6 +4,7 @@ import (
 	"fmt"
 	"math/rand"
 	"sort"
+	"strings"
 )
 
 var authors = []string{"Alice", "Ann B. Lee", "dev42 team7", "Zoë 李", "bob"}
@@ -31,6 +32,7 @@ var bases = []string{"a.txt", "B.java", "readme.md", "my file.txt", "x 3 4.txt",
 type world struct {
 	r     *rand.Rand
 	live  map[string]int // path -> number of lines (-1 binary)
+	gone  []string       // paths deleted so far (a later commit may create one of them again)
 	names int
 }
 
@@ -85,6 +87,12 @@ func genHistory(r *rand.Rand, id string, mode string, plain bool) Case {
 			switch {
 			case k <= 2 || !ok:
 				np := w.fresh()
+				if len(w.gone) > 0 && r.Intn(3) == 0 { // a deleted path comes back
+					g := w.gone[r.Intn(len(w.gone))]
+					if _, alive := w.live[g]; !alive {
+						np = g
+					}
+				}
 				if touched[np] {
 					continue
 				}
@@ -111,10 +119,20 @@ func genHistory(r *rand.Rand, id string, mode string, plain bool) Case {
 			case k == 6:
 				h.Ops = append(h.Ops, Op{Op: "delete", Path: p, Del: max0(w.live[p])})
 				delete(w.live, p)
+				w.gone = append(w.gone, p)
 				touched[p] = true
 			case k <= 8 && w.live[p] > 0:
 				var np string
-				switch r.Intn(4) {
+				switch r.Intn(6) {
+				case 4: // into the parent directory (git prints `dir/{sub => }/file`)
+					d := strings.TrimSuffix(dirOf(p), "/")
+					if k := strings.LastIndex(d, "/"); k >= 0 {
+						np = d[:k+1] + baseOf(p)
+					} else {
+						np = fmt.Sprintf("up%d_%s", i, baseOf(p))
+					}
+				case 5: // into a new sub-directory (git prints `dir/{ => sub}/file`)
+					np = dirOf(p) + fmt.Sprintf("sub%d/", i) + baseOf(p)
 				case 0: // same directory
 					np = dirOf(p) + fmt.Sprintf("renamed%d_%s", i, baseOf(p))
 				case 1: // to the root
@@ -196,6 +214,18 @@ func sortCase(r *rand.Rand, id string, mode string) Case {
 	return c
 }
 
+// manyFiles: a real history with 22-26 files and as many distinct authors; the command's tables are observed
+func manyFiles(r *rand.Rand, id string) Case {
+	c := Case{Case: id, Mode: "real", Tables: true}
+	nf := 22 + r.Intn(5)
+	for i := 0; i < nf; i++ {
+		c.History = append(c.History, Commit{Author: fmt.Sprintf("Dev %02d", i), Date: fmt.Sprintf("2021-%02d-%02d", 1+i/28, 1+i%28),
+			Subject: subjects[i%len(subjects)], Cctype: cctypes[i%len(subjects)],
+			Ops: []Op{{Op: "add", Path: fmt.Sprintf("src/f%02d.txt", i), Add: 1 + r.Intn(4)}}})
+	}
+	return c
+}
+
 func gen(seed int64, n int, tier string) []interface{} {
 	r := rand.New(rand.NewSource(seed))
 	var out []interface{}
@@ -212,7 +242,13 @@ func gen(seed int64, n int, tier string) []interface{} {
 		if k%3 == 2 {
 			mode = "synth"
 		}
-		out = append(out, genHistory(r, fmt.Sprintf("rand-%d-%d", seed, k), mode, k%4 == 0))
+		if k%40 == 7 { // more files (and authors) than any default table size
+			out = append(out, manyFiles(r, fmt.Sprintf("many-%d-%d", seed, k)))
+			continue
+		}
+		h := genHistory(r, fmt.Sprintf("rand-%d-%d", seed, k), mode, k%4 == 0)
+		h.Tables = mode == "real" && r.Intn(3) == 0
+		out = append(out, h)
 	}
 	return out
 }
